@@ -172,8 +172,15 @@ pub fn public(args: &Args) {
         let t0 = Instant::now();
         let _ = verif::take_shallow_workers_max();
         let (handle, tx, rx) = Searcher::new().analyze(state, seed, Evaluator::default(), depth, prev);
+        // "reader": "live" - the events are taken off the channel while the search runs (as a front end does); otherwise they are
+        // collected after the search thread has been joined. What is reported must not depend on when it is read.
+        let live = st["reader"].as_str() == Some("live") && !drop_rx;
         let mut rx = Some(rx);
         if drop_rx { rx = None; }
+        let live_reader = if live {
+            let r = rx.take().unwrap();
+            Some(std::thread::spawn(move || { let mut v = vec![]; while let Ok(e) = r.recv() { v.push(status_event_json(&e)); } v }))
+        } else { None };
         let mut t_stop = None;
         if let Some(ms) = stop_ms {
             std::thread::sleep(std::time::Duration::from_millis(ms));
@@ -183,6 +190,7 @@ pub fn public(args: &Args) {
         let res = handle.join();
         let after = t_stop.map(|t| t.elapsed().as_millis() as u64);
         if let Some(rx) = rx { while let Ok(e) = rx.try_recv() { out.ev(status_event_json(&e)); } }
+        if let Some(h) = live_reader { if let Ok(v) = h.join() { for e in v { out.ev(e); } } }
         // a late Stop after completion must be harmless
         let _ = tx.send(ControlEvent::Stop);
         if let Some((bh, btx, brx)) = background {
